@@ -155,4 +155,6 @@ pub fn run(ctx: &mut Ctx) {
     ctx.run_random(&Meaning, fmt::strategy(5, 4), ctx.tier.pick(30_000, 500_000));
     ctx.run_random(&Meaning, fmt::strategy(2, 7), ctx.tier.pick(10_000, 200_000));
     ctx.run_random(&Meaning, fmt::typed_strategy(), ctx.tier.pick(10_000, 200_000));
+    // programs dominated by nested lambdas (curried, applied, do-block / conditional / list bodies)
+    ctx.run_random(&Meaning, fmt::lambda_heavy_strategy(), ctx.tier.pick(6_000, 120_000));
 }
